@@ -159,6 +159,19 @@ Theorem C14_slices : forall d s e (ell : bool),
 Proof. exact slice_spec. Qed.
 Print Assumptions C14_slices.
 
+(* Only the last parameter of a variadic method is variadic; no result ever is; and with the flag
+   off, MethodArg / TypeStringEllipsis / TypeStringVariadicUnderlying / CallName are the plain type
+   string / name (which C14_denote ties to the source type). *)
+Theorem C14_variadic_flags : forall d,
+  (forall k, pvariadic d k = true <-> dvariadic d = true /\ S k = length (dparams d)) /\
+  (forall k, rvariadic d k = false) /\
+  (forall v, param_method_arg v false = {| a_name := vname v; a_ell := false; a_ty := vrty v |} /\
+             param_type_string_ellipsis v false = {| a_name := []; a_ell := false; a_ty := vrty v |} /\
+             param_type_string_variadic_underlying v false = vrty v /\
+             param_call_name true v false = (vname v, false)).
+Proof. exact variadic_flags. Qed.
+Print Assumptions C14_variadic_flags.
+
 (* ------------------------------------------------------------------------------------ *)
 (* Where the property does NOT hold of the faithful model (known findings)               *)
 (* ------------------------------------------------------------------------------------ *)
